@@ -1839,6 +1839,34 @@ def _np_delete(interp, a, idx, axis=None):
         r = h(interp, a, idxs, axis)
         if r is not None:
             return r
+    # [A] np.delete(a, [p, q], axis) / np.delete(a, [p], axis) for 1-D and 2-D arrays: the listed positions (along `axis`) are
+    # dropped, everything else keeps its order; duplicates count once (the path forks on p == q).  S6: positions must be >= 0.
+    ax = concrete_int(axis) if axis is not None else None
+    if len(idxs) in (1, 2) and ((a.ndim == 1 and axis is None) or (a.ndim == 2 and ax in (0, 1))):
+        ax = 0 if a.ndim == 1 else ax
+        L = to_z3(a.shape[ax])
+        ps = [to_z3(x) for x in idxs]
+        for p in ps:
+            g = z3.And(p >= 0, p < L)
+            interp.path.oblige(interp.ob_name("index"), g)
+            interp.path.assume(g)
+        if len(ps) == 2 and interp.path.decide(ps[0] == ps[1]):
+            ps = ps[:1]
+        if len(ps) == 1:
+            p0 = ps[0]
+            newL = _add(a.shape[ax], -1)
+            old = lambda k: z3.If(k < p0, k, k + 1)
+        else:
+            lo = z3.If(ps[0] < ps[1], ps[0], ps[1])
+            hi = z3.If(ps[0] < ps[1], ps[1], ps[0])
+            newL = _add(a.shape[ax], -2)
+            old = lambda k: z3.If(k < lo, k, z3.If(k + 1 < hi, k + 1, k + 2))
+        rd = a.reader()
+        if a.ndim == 1:
+            return new_array((newL,), lambda k: rd(old(k)), "delete")
+        if ax == 0:
+            return new_array((newL, a.shape[1]), lambda i, j: rd(old(i), j), "delete")
+        return new_array((a.shape[0], newL), lambda i, j: rd(i, old(j)), "delete")
     raise Undecided("np.delete form without model")
 
 
